@@ -13,13 +13,13 @@ enum { FL_SELF_DIRECT = 1, FL_FORCE = 2, FL_FAIL_DIRECT = 4, FL_SELF_SKIP = 256,
 struct Bcast { int in_pool = 0, pool_idx = 0, api = 0, flags = 0, src_own = 0, cb_usec = 0; };
 struct Fault { int fn = 0, k = 0, err = 0; };
 struct BcCase {
-  int nthreads = 1, skip_first = 0, detach_mask = 0, pool_flags = 0;
+  int nthreads = 1, skip_first = 0, detach_mask = 0, pool_flags = 0, signals = 0;
   std::vector<Bcast> b;
   Bytes plan;
   std::vector<Fault> faults;
   std::string ser() const {
     Writer w;
-    w.i("nthreads", nthreads).i("skip_first", skip_first).i("detach_mask", detach_mask).i("pool_flags", pool_flags).i("nbcasts", (long long)b.size());
+    w.i("nthreads", nthreads).i("skip_first", skip_first).i("detach_mask", detach_mask).i("pool_flags", pool_flags).i("signals", signals).i("nbcasts", (long long)b.size());
     for (size_t i = 0; i < b.size(); i++)
       w.iv(("b" + std::to_string(i)).c_str(), {b[i].in_pool, b[i].pool_idx, b[i].api, b[i].flags, b[i].src_own, b[i].cb_usec});
     w.b("plan", plan);
@@ -31,7 +31,7 @@ struct BcCase {
   static BcCase parse(const std::string &t) {
     Reader r(t);
     BcCase c;
-    c.nthreads = (int)r.i("nthreads", 1); c.skip_first = (int)r.i("skip_first"); c.detach_mask = (int)r.i("detach_mask"); c.pool_flags = (int)r.i("pool_flags");
+    c.nthreads = (int)r.i("nthreads", 1); c.skip_first = (int)r.i("skip_first"); c.detach_mask = (int)r.i("detach_mask"); c.pool_flags = (int)r.i("pool_flags"); c.signals = (int)r.i("signals");
     int n = (int)r.i("nbcasts");
     for (int i = 0; i < n; i++) {
       auto v = r.iv(("b" + std::to_string(i)).c_str());
@@ -231,6 +231,7 @@ static Verdict evaluate(const BcCase &c, const c10_out &o, bool &hang) {
     if (expect_fail || (o.running_mask != (1u << c.nthreads) - 1)) { label("some_target_not_running"); nt = true; }
     if (caller_in_pool) { label("caller_in_pool"); nt = true; }
     if (b.in_pool == 2) { label("caller_is_a_thread_of_another_pool"); nt = true; }
+    if (c.signals && !caller_in_pool && (fl & FL_SYNC)) { label("signals_during_a_synchronous_wait"); nt = true; }
     if (c.b.size() >= 2) { label("concurrent_broadcasts"); nt = true; }
     if (inj) { label("fault_injected"); nt = true; }
     if (o.res.vp_hits[4]) label("vp4_hit");
@@ -269,6 +270,7 @@ static Verdict run_case(const BcCase &c) {
   scn.skip_first = (uint8_t)c.skip_first;
   scn.detach_mask = (uint16_t)c.detach_mask;
   scn.pool_flags = (uint8_t)c.pool_flags;
+  scn.signals = (uint8_t)c.signals;
   scn.nbcasts = (uint8_t)std::min<size_t>(c.b.size(), C10_MAX_BCASTS);
   for (int i = 0; i < scn.nbcasts; i++) {
     scn.b[i].in_pool = (uint8_t)c.b[i].in_pool;
@@ -306,6 +308,7 @@ static rc::Gen<BcCase> genCase() {
     if (*range<int>(0, 5) == 0) dm = ((1 << c.nthreads) - 1) & ~(1 << (c.nthreads - 1));  // everything but the last thread stopped
     c.detach_mask = dm;
     c.pool_flags = *rc::gen::weightedElement<int>({{3, 0}, {1, 1}, {2, 2}, {1, 3}});
+    c.signals = *rc::gen::weightedElement<int>({{3, 0}, {1, 1}});  // handled signals hit the external callers while they wait
     int nb = *rc::gen::weightedElement<int>({{5, 1}, {2, 2}, {1, 3}});
     int sync_in_pool = 0;
     for (int i = 0; i < nb; i++) {
